@@ -380,7 +380,8 @@ def npu_segment(b, cur, feats, live):
         return None
     n, h, w, c = xt.shape
     kind = rng.choice(["conv", "conv1x1", "dwconv", "maxpool", "avgpool", "add_self", "add_skip", "mul_const", "relu", "sigmoid",
-                       "tanh", "lrelu", "concat2", "pad", "slice", "split_concat", "softmax", "reshape_pair", "minmax", "resize", "fc"])
+                       "tanh", "lrelu", "concat2", "pad", "slice", "split_concat", "softmax", "reshape_pair", "minmax", "resize", "fc",
+                       "resize_same"])
     b.net.desc.append(kind)
     if kind == "conv":
         k = rng.choice([(1, 1), (3, 3), (3, 3), (2, 2), (1, 3)])
@@ -440,6 +441,15 @@ def npu_segment(b, cur, feats, live):
         return b.binary(rng.choice(["MINIMUM", "MAXIMUM"]), cur, cur)
     if kind == "resize" and h * w <= 64:
         return b.resize(cur, 2, rng.choice(["RESIZE_BILINEAR", "RESIZE_NEAREST_NEIGHBOR"]))
+    if kind == "resize_same":
+        # resize to the size it already has: Vela turns it into a no-op; its result must survive (name, consumers)
+        st = b.const([2], "int32", [h, w], name=b.fresh("size"))
+        o = b.fm(xt.shape, xt.dtype, scale=xt.scales[0], zp=xt.zps[0])
+        rk = rng.choice(["RESIZE_BILINEAR", "RESIZE_NEAREST_NEIGHBOR"])
+        b.net.ops.append(Op(rk, [cur, st], [o], ("ResizeBilinearOptions" if rk == "RESIZE_BILINEAR" else "ResizeNearestNeighborOptions",
+                                                 dict(AlignCorners=False, HalfPixelCenters=False))))
+        feats.add("resize_to_same_size")
+        return o
     if kind == "fc":
         flat = b.reshape(cur, [1, h * w * c])
         if h * w * c > 4096:
